@@ -18,6 +18,8 @@ def run(rep, kf, tier, seed):
     import contracts.collection_ind as cci
     engine_b.discharge(rep, kf, [crefs.update_schemas_contract(), cefd.from_data_contract(), cci.from_data_inductive_contract()],
                        "C07", tier, seed)
+    import contracts.project as cproj
+    engine_b.discharge(rep, kf, [cproj.build_contract("NONE")], "C07", tier, seed)
     engine_b.discharge(rep, kf, creg.all_contracts() + cfp.all_contracts() + [cap.add_parameters_contract(), crc.response_contract()],
                        "C07", tier, seed)
     run_bounded(rep, kf, "C07", ["body_media", "enum_values", "model_properties", "param_conflicts", "name_collision", "body_refs", "schema_accounting", "response_refs"], tier)
